@@ -117,6 +117,7 @@ func checkMode(runs, ticks, inject int, outDir string) {
 			}
 		}
 	}
+	fastSyncWitness(outDir)
 	r := sim.NewRng(sim.SeedFromEnv())
 	cw := &sim.CaseWriter{OutDir: outDir, Name: "c01", Imports: "From V Require Import U64 Extracted Bft BftNet BftCheck.", CaseType: "bft_case", MFun: "bft_mismatches", VFun: "bft_violations", PerShard: 6}
 	for i := 0; i < runs; i++ {
